@@ -35,6 +35,9 @@ pub enum Reply {
     Garbage,
     Close,
     NonExtended,
+    /// a success response that is NOT the answer to the StartTLS request (foreign message id: 0, id+1
+    /// or id+7), followed in the same segment by the real answer: a refusal
+    ForeignSuccessThenCode,
 }
 
 #[derive(Clone, Copy, Debug, PartialEq, Eq, Hash, Serialize, Deserialize)]
@@ -129,6 +132,15 @@ async fn serve(listener: TcpListener, c: Case, log: Arc<Mutex<ServerLog>>) {
             Reply::Code => {
                 out.extend_from_slice(&RespMsg::new(id, Resp::Result { app: 24, res: Res::code(c.rc.max(1), "no TLS for you"), sasl: None, exop_name: Some(STARTTLS_OID.into()), exop_val: None }).encode());
             }
+            Reply::ForeignSuccessThenCode => {
+                let fid = match c.inject_kind % 3 {
+                    0 => 0,
+                    1 => id + 1,
+                    _ => id + 7,
+                };
+                out.extend_from_slice(&RespMsg::new(fid, Resp::Result { app: 24, res: Res::ok(""), sasl: None, exop_name: Some(STARTTLS_OID.into()), exop_val: None }).encode());
+                out.extend_from_slice(&RespMsg::new(id, Resp::Result { app: 24, res: Res::code(c.rc.max(1), "no TLS for you"), sasl: None, exop_name: Some(STARTTLS_OID.into()), exop_val: None }).encode());
+            }
             Reply::NonExtended => out.extend_from_slice(&RespMsg::new(id, Resp::result(1, Res::ok(""))).encode()),
             Reply::Garbage => {
                 out.extend_from_slice(&c.garbage);
@@ -185,7 +197,7 @@ async fn serve(listener: TcpListener, c: Case, log: Arc<Mutex<ServerLog>>) {
             return;
         }
     };
-    let hs_guard = if c.scheme == Scheme::StartTls && c.reply == Reply::Code { Duration::from_millis(1500) } else { Duration::from_secs(10) };
+    let hs_guard = if c.scheme == Scheme::StartTls && matches!(c.reply, Reply::Code | Reply::ForeignSuccessThenCode) { Duration::from_millis(1500) } else { Duration::from_secs(10) };
     match tokio::time::timeout(hs_guard, acc.accept(sock)).await {
         Ok(Ok(mut tls)) => {
             log.lock().unwrap().handshake_done = true;
@@ -322,9 +334,9 @@ pub fn cells() -> Vec<(Scheme, Verify, Cert, Reply, Post)> {
     let mut v = Vec::new();
     for verify in [Verify::Default, Verify::Disabled, Verify::TestCa] {
         for cert in [Cert::Good, Cert::WrongName, Cert::SelfSigned, Cert::Expired] {
-            for reply in [Reply::Success, Reply::Code, Reply::NonExtended] {
+            for reply in [Reply::Success, Reply::Code, Reply::NonExtended, Reply::ForeignSuccessThenCode] {
                 for post in [Post::Proper, Post::HandshakeGarbage, Post::InjectThenProper] {
-                    if reply == Reply::Code && post == Post::HandshakeGarbage {
+                    if matches!(reply, Reply::Code | Reply::ForeignSuccessThenCode) && post == Post::HandshakeGarbage {
                         continue;
                     }
                     v.push((Scheme::StartTls, verify, cert, reply, post));
@@ -402,7 +414,7 @@ pub fn property() -> Property {
     Property {
         id: "C17",
         level: "fault_enumeration",
-        rule: "EXHAUSTIVE product of scheme {ldap+StartTLS, ldaps} x verification {default trust store, no_tls_verify, custom connector trusting the test CA} x server certificate {CA-signed for localhost/127.0.0.1, CA-signed for another name, self-signed, expired} x StartTLS reply {success, non-zero code (after which the server still stands ready for a handshake, so a client that ignores the code is exposed), garbage then close, close, well-formed non-extended response} x post-reply behaviour {proper handshake, handshake garbage, forged cleartext LDAP responses for the next message ids in the same segment as the StartTLS response then a proper handshake} (144 cells) plus a sweep of 28 non-zero StartTLS result codes (incl. 5, 6, 10, 14) on the cell where everything else would succeed, each with generated parameters (result code, garbage bytes, forged PDU kind, host spelling, server write segmentation); thorough repeats the product 12 times with fresh parameters. The harness's server (tokio + native-tls acceptor, committed test PKI) records every raw byte it receives. Oracle: cleartext holds exactly one StartTLS ExtendedRequest (or nothing on ldaps) and otherwise only TLS records; establishment returns Ok only if the reply was a success, the handshake completed on the server and the certificate is acceptable under the effective settings (and must return Ok when all of that holds for a real StartTLS success); after Ok a bind is received inside TLS, returns the token sent inside TLS (never the forged cleartext one) and its password never appears in the raw log. Non-trivial: every cell (each contains an adversarial or trust-decision element); distinct = cell + parameters.",
+        rule: "EXHAUSTIVE product of scheme {ldap+StartTLS, ldaps} x verification {default trust store, no_tls_verify, custom connector trusting the test CA} x server certificate {CA-signed for localhost/127.0.0.1, CA-signed for another name, self-signed, expired} x StartTLS reply {success, non-zero code (after which the server still stands ready for a handshake, so a client that ignores the code is exposed), garbage then close, close, well-formed non-extended response, a success bearing a foreign message id (0, id+1, id+7) ahead of the real refusal} x post-reply behaviour {proper handshake, handshake garbage, forged cleartext LDAP responses for the next message ids in the same segment as the StartTLS response then a proper handshake} (168 cells) plus a sweep of 28 non-zero StartTLS result codes (incl. 5, 6, 10, 14) on the cell where everything else would succeed, each with generated parameters (result code, garbage bytes, forged PDU kind, host spelling, server write segmentation); thorough repeats the product 12 times with fresh parameters. The harness's server (tokio + native-tls acceptor, committed test PKI) records every raw byte it receives. Oracle: cleartext holds exactly one StartTLS ExtendedRequest (or nothing on ldaps) and otherwise only TLS records; establishment returns Ok only if the reply was a success, the handshake completed on the server and the certificate is acceptable under the effective settings (and must return Ok when all of that holds for a real StartTLS success); after Ok a bind is received inside TLS, returns the token sent inside TLS (never the forged cleartext one) and its password never appears in the raw log. Non-trivial: every cell (each contains an adversarial or trust-decision element); distinct = cell + parameters.",
         assumptions: &[
             "real sockets and wall time: verdicts are functions of the cell, timing is never borderline (guards of 10-20 s yield an env-* failure = inconclusive)",
             "only the default tls-native backend (OpenSSL) is exercised; the test CA is not in the system trust store, so 'default' verification must refuse every test certificate",
